@@ -4,7 +4,7 @@
 # compare_false_counts missing_eq_none missing_eq_none_one_side missing_eq_zero missing_eq_empty_list missing_eq_empty_str
 # missing_eq_sentinel falsy_all_equal repr_skips_last repr_order subclass_equal probe_spec_class_objects redefault_drops_compare
 # compact_key_no_default keyedset_eq_by_key keyedset_repr_unguarded field_repr_from_compare old_eq
-# old_deepcopy old_repr (code 2
+# old_deepcopy old_repr init_parent_ownership deepcopy_owner_class eq_isinstance_owner init_direct_parent_only (code 2
 # expected) and type_is deep_marker (model drift, no-failing-input-found, expected).
 set -u
 WT=/tmp/wt-c10
@@ -92,6 +92,22 @@ elif name == "keyedset_repr_unguarded":    # reverse of /repo 97568f7: KeyedSet.
     rep('    @reprlib.recursive_repr(fillvalue="{...}")\n    def __repr__(self):', '    def __repr__(self):')
 elif name == "field_repr_from_compare":    # (seeded/C10-D2) dataclasses.field: repr flag taken from compare
     rep("                repr=value.repr,", "                repr=value.compare,")
+elif name == "init_parent_ownership":      # (seeded/C10-F2) ownership read from the PARENT's attribute spec in the parent-constructor loop
+    rep("""                    for attr in parent_metadata.attrs:
+                        instance_attr_spec = instance_metadata.attrs[attr]
+                        if instance_attr_spec.owner is not parent:
+                            continue
+""", """                    for attr, parent_attr_spec in parent_metadata.attrs.items():
+                        if parent_attr_spec.owner is not parent:
+                            continue
+                        instance_attr_spec = instance_metadata.attrs[attr]
+""")
+elif name == "deepcopy_owner_class":       # (seeded/C10-F1) the copy is created as an instance of the class that owns the metadata
+    rep("        new = self.__class__.__new__(self.__class__)", "        new = self.__spec_class__.owner.__new__(self.__spec_class__.owner)")
+elif name == "eq_isinstance_owner":        # a plain subclass instance equals an instance of the spec class above it
+    rep("        if not isinstance(other, self.__class__):", "        if not isinstance(other, self.__spec_class__.owner):")
+elif name == "init_direct_parent_only":    # only the direct parent's constructor runs: attributes of the root are lost two levels down
+    rep("            for parent in reversed(spec_cls.mro()[1:]):", "            for parent in reversed(spec_cls.mro()[1:2]):")
 elif name == "subclass_equal":
     rep("        if not isinstance(other, self.__class__):\n            return False", "        if not isinstance(other, self.__class__):\n            return NotImplemented")
 open(p, "w").write(s)
